@@ -350,7 +350,11 @@ func canonRow(r *gripql.QueryResult) interface{} {
 		}
 		return map[string]interface{}{"selections": m}
 	case *gripql.QueryResult_Aggregations:
-		return map[string]interface{}{"agg": x.Aggregations.Name, "key": x.Aggregations.Key.AsInterface(), "value": x.Aggregations.Value}
+		v := x.Aggregations.Value
+		if v != v || v > 1.7e308 || v < -1.7e308 { // NaN / Inf are not JSON
+			return map[string]interface{}{"agg": x.Aggregations.Name, "key": x.Aggregations.Key.AsInterface(), "value": 0.0, "nan": true}
+		}
+		return map[string]interface{}{"agg": x.Aggregations.Name, "key": x.Aggregations.Key.AsInterface(), "value": v}
 	}
 	return nil
 }
